@@ -179,7 +179,11 @@ impl UnimockAttrParams<'_> {
 
                 match &trait_fn.deps {
                     generics::FnDeps::Generic { .. } => {
-                        punctuator.push(fn_ident);
+                        // a lifted parameter that no argument determines has to be named: `fn_ident::<_, T>`
+                        let generic_args = &trait_fn.fn_generic_args;
+                        punctuator.push_fn(|stream| {
+                            push_tokens!(stream, fn_ident, generic_args);
+                        });
                     }
                     generics::FnDeps::Concrete(_) => {
                         punctuator.push(Underscore(span));
@@ -187,7 +191,7 @@ impl UnimockAttrParams<'_> {
                     generics::FnDeps::NoDeps { .. } => {
                         // fn_ident(a, b, c)
                         punctuator.push_fn(|stream| {
-                            push_tokens!(stream, fn_ident);
+                            push_tokens!(stream, fn_ident, trait_fn.fn_generic_args);
 
                             Paren(span).surround(stream, |stream| {
                                 let mut punctuator = comma_sep(stream, span);
